@@ -334,7 +334,9 @@ def run(chk):
     # ------------------------------------------------------------------ R13.3 literals
     fit = method(chk, dm, "_fit")
     csc = method(chk, dm, "_combination_selection_criteria")
-    r3.require(f"self._get_error_metrics('{UNSPLIT}')" in unparse(fit.node), f"{fit.key}|baseline-is-unsplit", fit.where(), "wRMSE_base must be the error of the unsplit model")
+    from rules.daily_errors import metrics_stand_in, stored_errors
+    _se = stored_errors(chk, dm, fit, method(chk, dm, "_get_error_metrics"))
+    r3.require(_se.get("__base__") == "base_0", f"{fit.key}|baseline-is-unsplit", fit.where(), f"wRMSE_base must be the error of the unsplit model (interpreted: {_se.get('__base__', _se)})")
     # _combination_selection_criteria interpreted with selection_criteria as a recorder: what is handed over in which role
     from engine.absint import Term as _T
     from engine.pyinterp import StubCall, InterpRaised as _IR
@@ -363,7 +365,8 @@ def run(chk):
             return _S("CRITERION")
         me = NS(fit_components={c: NS(N=_S(f"N[{c}]"), TSS=_S(f"TSS[{c}]"), num_coeffs=_S(f"k[{c}]")) for c in comps}, wRMSE_base=_S("wRMSE_base"),
                 settings=NS(split_selection=NS(criteria=_S("criteria"), penalty_multiplier=_S("penalty_multiplier"), penalty_power=_S("penalty_power"))),
-                _get_error_metrics=StubCall(lambda c: (_S(f"wRMSE[{c}]"), _S(f"other[{c}]"))), df_penalties={cand: _S("df_penalty")})
+                _get_error_metrics=metrics_stand_in(chk, dm, method(chk, dm, "_get_error_metrics"), lambda c, i: _S(f"wRMSE[{c}]") if i == 0 else _S(f"other{i}[{c}]")),
+                df_penalties={cand: _S("df_penalty")})
         it = Interp()
         env = ModuleEnv(chk.repo, csc.module, it, {"np": _NPs(), "numpy": _NPs(), "selection_criteria": StubCall(_sel)})
         key = f"{csc.key}|criterion-inputs|{cand}"
